@@ -142,7 +142,7 @@ Proof.
   - cbn in LP. destruct LP as [-> LP].
     destruct (nnext m (qhead m q)) eqn:En.
     + assert (Hc : (0 <? cnt) = true) by (apply Z.ltb_lt; lia). rewrite Hc in E.
-      inversion E; subst. cbn. apply SIL; cbn; auto.
+      destruct inm; [rewrite LOOP in E|]; inversion E; subst; cbn; apply SIL; cbn; auto.
     + inversion E; subst. cbn. apply SIL; cbn; auto; try (repeat split; auto; rewrite ?En; discriminate).
   - inversion E; subst. cbn [wc_of res_pos gk_wake gc_wake sched_of].
     destruct (k_sethead _ _ _ _ _ _ _ _ _ I Hw) as (e & rest & Eg & K). rewrite Eg. cbn [tl hd_error option_map fst].
